@@ -1,6 +1,7 @@
 (* C12 — df_fillna / nona fill or drop exactly the missing cells, arrays and pandas alike.
    Property theorems only; each is closed by lemmas of proofs/P_fill.v about model/M_fill.v.
-   Vectors are `list (option Z)` (None = NaN), frames are row-major lists of labelled rows,
+   Cells are `option val` with val = Fin z | PInf | NInf: None = NaN, and +inf / -inf are ordinary non-NaN
+   values (every `x : val` below ranges over them too).  Vectors are lists of cells, frames are row-major lists of labelled rows,
    of any length and any NaN pattern; `lim : option nat` is the limit (None = unbounded);
    positions are list indices, so "distance" is a difference of positions. *)
 From Coq Require Import ZArith List Bool Arith Lia.
@@ -79,9 +80,9 @@ Print Assumptions C12_fnna_leading_only.
    a column without any observation is left as it is *)
 Theorem C12_ffill_na_0_tail lim body x tail v : all_none tail -> all_none v ->
   ffill_tail lim None (body ++ Some x :: tail) = ffill lim (body ++ [Some x]) ++ repeat None (length tail) /\
-  ffill_tail lim (Some 0%Z) (body ++ Some x :: tail) = ffill lim (body ++ [Some x]) ++ repeat (Some 0%Z) (length tail) /\
-  ffill_tail lim None v = v /\ ffill_tail lim (Some 0%Z) v = v /\
-  vec_op lim MFfillNa = Some (ffill_tail lim None) /\ vec_op lim MFfill0 = Some (ffill_tail lim (Some 0%Z)).
+  ffill_tail lim (Some (Fin 0)) (body ++ Some x :: tail) = ffill lim (body ++ [Some x]) ++ repeat (Some (Fin 0)) (length tail) /\
+  ffill_tail lim None v = v /\ ffill_tail lim (Some (Fin 0)) v = v /\
+  vec_op lim MFfillNa = Some (ffill_tail lim None) /\ vec_op lim MFfill0 = Some (ffill_tail lim (Some (Fin 0))).
 Proof.
   intros Ht Hv. repeat split; auto using ffill_tail_spec, ffill_tail_all_nan.
 Qed.
@@ -112,10 +113,25 @@ Theorem C12_input_unchanged k lim ms value e lf :
 Proof. split; reflexivity. Qed.
 Print Assumptions C12_input_unchanged.
 
-(* the hypotheses are satisfiable on a non-trivial frame: 2 columns, leading / interior / trailing NaN runs *)
+(* +-inf is not NaN: a row holding an infinite cell is never removed by 'nona' / nona(), and (by
+   C12_non_nan_unchanged, whose x ranges over PInf and NInf) no method ever replaces an infinite cell *)
+Theorem C12_inf_is_not_nan k lim lf t r j x : (x = PInf \/ x = NInf) ->
+  In (t, r) lf -> nth_error r j = Some (Some x) ->
+  In (t, r) (fill k lim [MNona] lf) /\ In (t, r) (nona_f None EAll lf) /\
+  all_nan r = false.
+Proof.
+  intros _ Hin Hx. pose proof (all_nan_false r j x Hx) as Hn. repeat split; auto.
+  - cbn [fill fold_left fill1 vec_op]. apply filter_In. cbn [snd]. now rewrite Hn.
+  - rewrite nona_f_all. apply filter_In. rewrite masked_nan. cbn [snd]. now rewrite Hn.
+Qed.
+Print Assumptions C12_inf_is_not_nan.
+
+(* the hypotheses are satisfiable on a non-trivial frame: 2 columns, leading / interior / trailing NaN runs, infinite cells *)
 Example C12_example :
-  let lf := [(10, [None; None]); (11, [Some 1; None]); (12, [None; None]); (13, [None; Some 2]); (14, [None; None]); (15, [None; None])]%Z in
+  let F := fun z => Some (Fin z) in
+  let lf := [(10, [None; None]); (11, [F 1; None]); (12, [None; None]); (13, [None; Some PInf]); (14, [None; None]); (15, [Some NInf; None]); (16, [None; None])]%Z in
   wf 2 (map snd lf) /\
-  fill 2 (Some 1) [MFfill; MNona] lf = [(11, [Some 1; None]); (12, [Some 1; None]); (13, [None; Some 2]); (14, [None; Some 2])]%Z /\
-  fill 2 None [MFfill0] lf = [(10, [None; None]); (11, [Some 1; None]); (12, [Some 0; None]); (13, [Some 0; Some 2]); (14, [Some 0; Some 0]); (15, [Some 0; Some 0])]%Z.
-Proof. split; [repeat constructor | split; vm_compute; reflexivity]. Qed.
+  fill 2 (Some 1%nat) [MFfill; MNona] lf = [(11, [F 1; None]); (12, [F 1; None]); (13, [None; Some PInf]); (14, [None; Some PInf]); (15, [Some NInf; None]); (16, [Some NInf; None])]%Z /\
+  fill 2 None [MFfill0] lf = [(10, [None; None]); (11, [F 1; None]); (12, [F 1; None]); (13, [F 1; Some PInf]); (14, [F 1; F 0]); (15, [Some NInf; F 0]); (16, [F 0; F 0])]%Z /\
+  nona_f None EAll lf = [(11, [F 1; None]); (13, [None; Some PInf]); (15, [Some NInf; None])]%Z.
+Proof. split; [repeat constructor | repeat split; vm_compute; reflexivity]. Qed.
